@@ -8,6 +8,7 @@ relative order of the add-on lines, so by property C12 the simulation result mus
 WS = [' ', ' ', ' ', '\t', '\t', '\x0b', '\x0c', '\x1c', '\x1d', '\x1e', '\x1f', '\x85', '\xa0']
 EOLS = {'lf': '\n', 'crlf': '\r\n', 'cr': '\r'}
 CLASSES = ['perm', 'ws', 'comment', 'dup', 'eol', 'all']
+BLOCK_CLASSES = ['block-first', 'block-last']   # whole runs only: the add-on block moved before / after everything else
 
 
 def split_text(text):
@@ -53,6 +54,14 @@ def t_perm(rnd, lines):
     return out
 
 
+def t_block(rnd, lines, first):
+    """the add-on block (own order kept) before / after all other lines, which are shuffled"""
+    block = [l for l in lines if l[0] == 'p' and is_block(l[1])]
+    rest = [l for l in lines if not (l[0] == 'p' and is_block(l[1]))]
+    rnd.shuffle(rest)
+    return block + rest if first else rest + block
+
+
 def t_ws(rnd, lines):
     out = []
     for l in lines:
@@ -95,6 +104,8 @@ def t_dup(rnd, lines, junk=('99999', '1e-3', 'junk', '-1', '0')):
 def variant(rnd, lines, cls):
     """-> (text, description)"""
     eol, final = '\n', True
+    if cls in BLOCK_CLASSES:
+        lines = t_block(rnd, lines, cls == 'block-first')
     if cls in ('perm', 'all'):
         lines = t_perm(rnd, lines)
     if cls in ('dup', 'all'):
